@@ -1,10 +1,10 @@
 package rules
 
 import (
-	"go/constant"
 	"bytes"
 	"fmt"
 	"go/ast"
+	"go/constant"
 	"go/printer"
 	"go/token"
 	"go/types"
